@@ -5,6 +5,7 @@ import (
 	"errors"
 	"hash/maphash"
 	"io"
+	"math/big"
 	"reflect"
 	"slices"
 	"strings"
@@ -434,7 +435,14 @@ func (s unicodeString) Equals(other Value) bool {
 		return true
 	}
 
-	if o, ok := other.(*Object); ok {
+	switch o := other.(type) {
+	case valueInt, valueFloat, valueBool:
+		// may be numeric once the non-ASCII white space is trimmed
+		return s.ToFloat() == o.ToFloat()
+	case *valueBigInt:
+		bigInt, err := stringToBigInt(s.toTrimmedUTF8())
+		return err == nil && bigInt.Cmp((*big.Int)(o)) == 0
+	case *Object:
 		return s.Equals(o.toPrimitive())
 	}
 	return false
